@@ -16,7 +16,7 @@ From Utp Require Import Conn.C07_Pred Conn.C07_Pred2 Conn.C18_Pred Conn.C09_Pred
 From Utp Require Import Pair.Pair Pair.C01_Pred2.
 From Utp Require Import Conn.C04_Pred Conn.C0506_Pred2 Conn.C14C08_Pred Conn.C14_Pred2 Conn.C08_Pred2.
 From Utp Require Import Conn.C04_Pred Conn.C0506_Pred2 Conn.C14C08_Pred.
-From Utp Require Import Conn.C11_Pred Sock.DispC11_Pred Conn.C04_Pred2 Conn.C05_Pred3 Cubic.C15_Pred2 Conn.C18_Pred2 Conn.C06_Pred2 Pair.C02_PairPred Conn.C17_Pred2 Conn.C04_Guard Conn.C04_Consumed Conn.C06_Pred3.
+From Utp Require Import Conn.C11_Pred Sock.DispC11_Pred Conn.C04_Pred2 Conn.C05_Pred3 Cubic.C15_Pred2 Conn.C18_Pred2 Conn.C06_Pred2 Pair.C02_PairPred Conn.C17_Pred2 Conn.C04_Guard Conn.C04_Consumed Conn.C06_Pred3 Conn.C02_Pred2.
 From Utp Require Import Conn.C11_Pred Sock.DispC11_Pred Conn.C04_Pred2 Conn.C05_Pred3 Cubic.C15_Pred2 Conn.C18_Pred2 Conn.C06_Pred2 Sock.DispC13_Pred.
 From Utp Require Import Conn.Recovery Conn.Msg Conn.VSockRec Conn.VSock Conn.VSockRun Conn.VObs.
 
@@ -60,5 +60,6 @@ Extraction "model"
   c18_off_all_segmented_ok c18_drain_sends_ok c18_buffered_segmented_ok c18_pre_ok
   c06_emitted_live_ok_g c06_no_resend_acked_g c06_fast_retx_ok_g
   c02_pair_settled_ok
+  c02_rto_mode_armed c02_no_silent_stall_g c02_rto_armed_fin_g c02_prompt_write_g
   c17_peer_fin_ok2 c17_fin_covers_data_ok c04_vsock_ack_guarded c04_consumed_honest_guarded c04_d22_class c06_stable_plen_ok_p
   cubic_new cubic_trace c15_obs_ok c15_obs_core f64_view BETA_CUBIC C_CUBIC cbrt_cr.
